@@ -13,7 +13,7 @@ func init() {
 		Assumptions: []string{"interval-set model validated by selfcheck", "operand storage forms are produced with the library itself and verified against the model before use"},
 		Units: []Unit{
 			{Name: "pairs", Quick: 5000, Thorough: 400000, Run: c01Pairs},
-			{Name: "threshold-results", Quick: 700, Thorough: 40000, Run: c01Threshold},
+			{Name: "threshold-results", Quick: 2500, Thorough: 80000, Run: c01Threshold},
 			{Name: "exhaustive-subset-pairs", ExhaustiveN: func(string) int { return 256 * 256 }, RunIndexed: c01Exh},
 			{Name: "popcount-kernels", ExhaustiveN: func(string) int { return 1101 }, RunIndexed: popcountKernels},
 		},
@@ -442,7 +442,8 @@ func c01Pairs(c *Ctx) {
 // genThresholdPair returns operands A, B of one chunk (at the given key, already shifted) and an operation such that
 // A op B has exactly `target` values, the target being one of the representation thresholds.
 func genThresholdPair(r *Rng, key uint64) (ma, mb *ISet, op string, target int) {
-	target = []int{4095, 4096, 4097, 4097, 65535, 65536, 32768, 16384, 8192}[r.Intn(9)]
+	target = []int{4095, 4096, 4097, 4097, 65535, 65536, 32768, 16384, 8192, 4098 + r.Intn(14)}[r.Intn(10)]
+	runsVsSingles := false
 	op = binOps[r.Intn(4)]
 	// choose the result set R with |R| = target, then derive A and B so that A op B = R
 	var R *ISet
@@ -451,7 +452,8 @@ func genThresholdPair(r *Rng, key uint64) (ma, mb *ISet, op string, target int) 
 		if target == 65535 {
 			R.Remove(edgeVal16(r))
 		}
-	} else if target <= 4097 && r.Chance(0.2) {
+	} else if target <= 4111 && r.Chance(0.35) {
+		runsVsSingles = true
 		// k short runs (length 2..4, the shortest that still make a run chunk run-efficient) with isolated values in
 		// the gaps between them: exactly the target, in 2048 or more runs when the pieces are united
 		R = NewISet()
@@ -519,7 +521,21 @@ func genThresholdPair(r *Rng, key uint64) (ma, mb *ISet, op string, target int) 
 		a, b = R.Or(half1), R.Or(half2)
 	case "Or":
 		a, b = splitSet(r, R)
-		if r.Chance(0.5) {
+		if runsVsSingles && r.Chance(0.7) {
+			// the runs to one operand (a run chunk), the isolated values to the other (an array chunk)
+			a, b = NewISet(), NewISet()
+			for _, v := range R.iv {
+				if v.Hi > v.Lo {
+					a.iv = append(a.iv, v)
+				} else {
+					b.iv = append(b.iv, v)
+				}
+			}
+			a, b = ivsToSet(a.iv), ivsToSet(b.iv)
+			if r.Chance(0.3) {
+				a, b = b, a
+			}
+		} else if r.Chance(0.5) {
 			a = a.Or(b.And(noise)) // overlap
 		}
 	case "Xor":
